@@ -345,20 +345,45 @@ def body_args(h, kind, pt, at):
         arg = object.__new__(expr.ParenthesizedExpr)
         arg.child, arg.parent = inner, None
         kids = [arg]
+    elif kind == 'array':
+        # CALL f(x()): the whole array is passed; the argument generator is the real gen_array_pass
+        r.local_vars['x'] = array_type(TN[at], [(1, 3)])
+        arg = expr.ArrayPass('x')
+        arg.bind(cu)
+        arg._parent_routine = r
+        kids = []
     else:
         arg = _LvStub(TN[at])
         kids = [arg]
     code = qvm_codegen.QvmCode()
-    cg = ChildGen(None, kids)
+
+    class ArgGen(ChildGen):
+        def gen_code_for_node(self, n, c):
+            if isinstance(n, expr.ArrayPass):
+                return qvm_codegen.gen_array_pass(n, c, self)
+            return ChildGen.gen_code_for_node(self, n, c)
+    cg = ArgGen(None, kids)
     cg.compilation = cu
-    out = h.call(qvm_codegen.gen_code_for_args, [arg], [TN[pt]], code, cg)
+    out = h.call(qvm_codegen.gen_code_for_args, [arg], [r.local_vars['x'] if kind == 'array' else TN[pt]], code, cg)
     if not out.returned:
         h.prove('generator.no_exception', False, detail=repr(out))
         return
-    F = Seg(h, 'frame', cls=CallFrame, other_type=ETYPES[at][0], size=2)
+    F = Seg(h, 'frame', cls=CallFrame, other_type=ETYPES[at][0], size=memlayout.get_local_vars_size(r) if kind == 'array' else 2)
     run = Runner(h, cu, r, F.seg)
     v = mkcell(h, ETYPES[at][0], 'value')
     bad = run.run(code._instrs, [v])
+    if kind == 'array':
+        # the frame must be as large as the array's storage; the reference is to the array's first (header) cell
+        h.prove('no_exception', bad is None, detail=repr(bad))
+        cells = stack_after(h, run.cpu, 1)
+        if cells:
+            c = cells[0]
+            h.prove('array_passed_by_reference', c.type == CT.REFERENCE)
+            if c.type == CT.REFERENCE:
+                h.prove('reference_is_to_the_start_of_the_arrays_storage',
+                        land(c.value.segment is F.seg, c.value.index == memlayout.get_local_var_idx(r, 'x')))
+        F.prove_only_written(h, 'memory_unchanged', [])
+        return
     if kind == 'variable':
         h.prove('no_exception', bad is None, detail=repr(bad))
         cells = stack_after(h, run.cpu, 1)
@@ -391,9 +416,10 @@ CONTRACTS += [
     Contract('stmt.assignment', PROPS, ['qbee.qvm_codegen:gen_assignment', 'qbee.qvm_codegen:gen_lvalue_write'], body_assignment,
              cases=[(a, b) for a in NUMS for b in NUMS] + [('STRING', 'STRING')]),
     Contract('stmt.record_assignment', ['C06', 'C01'], ['qbee.qvm_codegen:gen_assignment', 'qbee.qvm_codegen:gen_lvalue'], body_record_assignment),
-    Contract('call.args', PROPS, ['qbee.qvm_codegen:gen_code_for_args', 'qbee.qvm_codegen:gen_lvalue_ref'], body_args,
+    Contract('call.args', PROPS, ['qbee.qvm_codegen:gen_code_for_args', 'qbee.qvm_codegen:gen_lvalue_ref', 'qbee.qvm_codegen:gen_array_pass'], body_args,
              cases=[('variable', t, t) for t in ('INTEGER', 'DOUBLE', 'STRING')] +
-                   [(k, p, a) for k in ('parenthesised_variable', 'expression') for p in ('INTEGER', 'LONG', 'DOUBLE') for a in ('INTEGER', 'DOUBLE')]),
+                   [(k, p, a) for k in ('parenthesised_variable', 'expression') for p in ('INTEGER', 'LONG', 'DOUBLE') for a in ('INTEGER', 'DOUBLE')] +
+                   [('array', t, t) for t in ('INTEGER', 'STRING')]),
 ]
 
 
